@@ -35,6 +35,32 @@ def clearFault (cols : List (List Val)) (j : Nat) : List Val × RawArch :=
 def clearFaultLengthFirst (cols : List (List Val)) (j : Nat) : List Val × RawArch :=
   ((cols.take (j + 1)).flatten, ⟨0, cols⟩)
 
+/-- `Archetype::remove_row_unchecked(index)` as written: per column, `swap_remove(index)` on a
+`Vec` rebuilt around the shared length, the removed value dropped at once; the identifier column
+and `self.length -= 1` come after the column loop.  A `Drop` panic on the value removed from column
+`j` unwinds out of the loop: in columns `0..=j` the last value has been copied into slot `index`
+(the last slot still holds its bits), the shared length is unchanged.  Returns the values dropped
+by the operation and the state left behind. -/
+def removeFault (cols : List (List Val)) (index j : Nat) : List Val × RawArch :=
+  ((cols.take (j + 1)).filterMap (fun c => c[index]?),
+   ⟨(cols.headD []).length,
+    (cols.take (j + 1)).map (fun c => match c.getLast? with
+      | some l => c.set index l
+      | none => c) ++ cols.drop (j + 1)⟩)
+
+/-- `Archetype::clone_from` as written: per column, `Vec::clone_from` on a `Vec` rebuilt around the
+destination's shared length — it first truncates the destination column to the source's length
+(dropping the cut-off values), then clones element by element —, the raw parts written back, and
+only after the column loop `self.length = source.length`.  A `Clone` panic at the first element of
+column `j` unwinds out of the loop: columns `0..j` hold the clones followed by the stale bits of
+their cut-off tail, column `j` has lost its tail, the shared length is still the destination's.
+Returns the values dropped by the operation and the state left behind. -/
+def cloneFromFault (e : Nat) (dst src : List (List Val)) (j : Nat) : List Val × RawArch :=
+  let done := (dst.take j).zip (src.take j)
+  (done.flatMap (fun p => p.1) ++ ((dst.drop j).headD []).drop ((src.drop j).headD []).length,
+   ⟨(dst.headD []).length,
+    done.map (fun p => p.2.map (cloneVal e) ++ p.1.drop p.2.length) ++ dst.drop j⟩)
+
 /-- No identity is dropped twice. -/
 def NoDoubleDrop (drops : List Val) : Prop := drops.Nodup
 
@@ -45,12 +71,15 @@ def faultSafe (op cb : String) : Bool :=
   match cb with
   | "PartialEq" | "Debug" | "Serialize" | "Body" => true       -- read-only / caller's own code
   | "Deserialize" => true                                        -- partially built columns are freed or leaked
-  | "Clone" => op == "clone"                                     -- the clone is detached until returned
+  | "Clone" =>
+    -- the clone is detached until returned; `clone_from` into tables that neither shrink nor
+    -- reallocate (a cleared world with capacity, a world with the same rows) only leaks
+    op == "clone" || op == "clonefrom-cleared" || op == "clonefrom-same"
   | "Drop" =>
     -- a value's Drop panicking: safe where the value has already left the columns, and in
     -- `clear` since the length-first repair; `remove` and `clone_from` are recorded findings
     op == "drop" || op == "add-overwrite" || op == "write" || op == "del" || op == "add-move" ||
-    op == "extend" || op == "clear"
+    op == "extend" || op == "clear" || op == "clonefrom-cleared" || op == "clonefrom-same"
   | _ => false
 
 end Brood
